@@ -374,7 +374,7 @@ fn claims_case(g: &mut Gen, ctx: &mut Ctx) -> CaseResult {
     use coset::cwt::{ClaimName, ClaimsSet, Timestamp};
     let mut c = ClaimsSet::default();
     let mut typed: Vec<(Item, Item)> = vec![];
-    let mut text = |g: &mut Gen, k: i128, typed: &mut Vec<(Item, Item)>| -> Option<String> {
+    let text = |g: &mut Gen, k: i128, typed: &mut Vec<(Item, Item)>| -> Option<String> {
         if g.ratio(1, 3) {
             let t = g.text();
             typed.push((Item::Int(k), Item::Text(t.clone())));
@@ -386,7 +386,7 @@ fn claims_case(g: &mut Gen, ctx: &mut Ctx) -> CaseResult {
     c.issuer = text(g, 1, &mut typed);
     c.subject = text(g, 2, &mut typed);
     c.audience = text(g, 3, &mut typed);
-    let mut time = |g: &mut Gen, k: i128, typed: &mut Vec<(Item, Item)>| -> Option<Timestamp> {
+    let time = |g: &mut Gen, k: i128, typed: &mut Vec<(Item, Item)>| -> Option<Timestamp> {
         if !g.ratio(1, 2) {
             return None;
         }
@@ -458,7 +458,45 @@ fn claims_case(g: &mut Gen, ctx: &mut Ctx) -> CaseResult {
     Ok(())
 }
 
+/// Supplementary public information (alone and inside a KDF context) carrying a protected header *as
+/// received*: the byte string goes out exactly as it came in — also when it is one of the other
+/// spellings of "no parameters" (`a0`, `bf ff`) — beside the key length and the optional `other`.
+fn supp_received_case(g: &mut Gen, ctx: &mut Ctx) -> CaseResult {
+    use coset::cbor::value::Value;
+    use coset::{CoseKdfContext, CoseKdfContextBuilder, ProtectedHeader, SuppPubInfo};
+    const RECEIVED: &[&[u8]] = &[&[], &[0xa0], &[0xbf, 0xff], &[0xb8, 0x00], &[0xa1, 0x04, 0x41, 0x01], &[0xa1, 0x18, 0x04, 0x41, 0x01], &[0xbf, 0x04, 0x41, 0x01, 0xff], &[0xa2, 0x04, 0x41, 0x01, 0x01, 0x26]];
+    let wire: Vec<u8> = g.pick(RECEIVED).to_vec();
+    let protected = ProtectedHeader::from_cbor_bstr(Value::Bytes(wire.clone())).map_err(|e| format!("protected header {} rejected: {:?}", hex_trunc(&wire, 20), e))?;
+    let len = *g.pick(&[0u64, 128, 256, u64::MAX]);
+    let other = if g.bool() { Some(g.small_bytes()) } else { None };
+    let s = SuppPubInfo { key_data_length: len, protected, other: other.clone() };
+    ctx.class("type:SuppPubInfo-with-received-protected");
+    ctx.nontrivial(hash_str(&format!("{:?}", s)));
+    ctx.sample_with(|| format!("SuppPubInfo {}", short(&s, 200)));
+    let mut want = vec![Item::Int(len as i128), Item::Bytes(wire.clone())];
+    if let Some(o) = &other {
+        want.push(Item::Bytes(o.clone()));
+    }
+    let want = Item::Array(want);
+    let out = s.clone().to_vec().map_err(|e| format!("SuppPubInfo failed to encode: {:?}", e))?;
+    let read = read_strict(&out).map_err(|e| format!("SuppPubInfo output not strict CBOR: {:?}", e))?;
+    ensure!(read == want, "SuppPubInfo {} encodes to {} instead of {}", short(&s, 200), diag(&read), diag(&want));
+    let back = SuppPubInfo::from_slice(&out).map_err(|e| format!("SuppPubInfo: own output rejected: {:?}", e))?;
+    ensure!(back == s, "SuppPubInfo: decoding the output does not return the value: {} vs {}", short(&back, 200), short(&s, 200));
+    let k = CoseKdfContextBuilder::new().supp_pub_info(s.clone()).build();
+    let out = k.clone().to_vec().map_err(|e| format!("KDF context failed to encode: {:?}", e))?;
+    let read = read_strict(&out).map_err(|e| format!("KDF context output not strict CBOR: {:?}", e))?;
+    let slot = read.as_array().and_then(|a| a.get(3)).cloned().ok_or("KDF context without SuppPubInfo slot")?;
+    ensure!(slot == want, "KDF context carries SuppPubInfo {} instead of {}", diag(&slot), diag(&want));
+    let back = CoseKdfContext::from_slice(&out).map_err(|e| format!("KDF context: own output rejected: {:?}", e))?;
+    ensure!(back == k, "KDF context: decoding the output does not return the value");
+    Ok(())
+}
+
 fn case(g: &mut Gen, ctx: &mut Ctx) -> CaseResult {
+    if g.ratio(1, 40) {
+        return supp_received_case(g, ctx);
+    }
     if g.ratio(1, 12) {
         return claims_case(g, ctx);
     }
